@@ -6,7 +6,7 @@
    (parse_request pkg = Some r). *)
 From Coq Require Import List NArith ZArith Permutation.
 From TarsV Require Import Gen.Consts Base.Hex Codec.Prim Codec.GenCodec Frame.Framing Frame.FramingProofs Rpc.Invoke Rpc.InvokeProofs
-  Rpc.InvokeTime Rpc.InvokeTimeProofs.
+  Rpc.InvokeTime Rpc.InvokeTimeProofs Gen.C10Probe Rpc.InvokeProbe.
 Import ListNotations.
 Open Scope N_scope.
 
@@ -268,6 +268,15 @@ Definition C10_shared_current_statement : Prop := InvokeTimeProofs.shared_curren
 Theorem C10_shared_current_refuted : ~ InvokeTimeProofs.shared_current_statement.
 Proof. exact InvokeTimeProofs.shared_current_refuted. Qed.
 
+(* ================= regenerated from the tree: Protocol.Invoke's answers on a fixed table of requests =================
+   Gen/C10Probe.v is rewritten on every run from calls of the real tars.Protocol.Invoke (scripted servant, every function
+   shape x version x outcome, ping and near-misses, the queue-timeout decision on both sides of its boundary, one-way
+   requests, refused versions); the model's invoke agrees with every row. *)
+Theorem C10_invoke_probe : probe_failing = [].
+Proof. exact InvokeProbe.invoke_probe_agrees. Qed.
+Theorem C10_invoke_probe_nonempty : (100 <=? length c10_probe)%nat = true.
+Proof. exact InvokeProbe.invoke_probe_nonempty. Qed.
+
 Print Assumptions C10_protocol_constants.
 Print Assumptions C10_count.
 Print Assumptions C10_identity.
@@ -313,3 +322,5 @@ Print Assumptions C10_queueing_does_not_eat_handle_timeout.
 Print Assumptions C10_connection_projection.
 Print Assumptions C10_connection_interleaved.
 Print Assumptions C10_shared_current_refuted.
+Print Assumptions C10_invoke_probe.
+Print Assumptions C10_invoke_probe_nonempty.
